@@ -1,6 +1,6 @@
 (* C18 — property theorems only (each closed by `exact <lemma>`, followed by Print Assumptions). *)
 From Coq Require Import List NArith Bool.
-From MW Require Import C16.Model C16.Proofs C17.Proofs C17.ProofsOrder C18.Proofs C18.ProofsIds C18.ProofsInv.
+From MW Require Import C16.Model C16.Proofs C17.Proofs C17.ProofsOrder C18.Proofs C18.ProofsIds C18.ProofsInv C18.ProofsTimeout.
 Import ListNotations.
 Open Scope N_scope.
 
@@ -113,6 +113,36 @@ Theorem C18_pull_after_restart_blocks_only_when_empty : forall s c chs, RGood s 
     (chs = [] \/ mem (j_chan jx) chs = true) -> j_done jx = true.
 Proof. exact restart_pull_blocks_only_when_empty. Qed.
 Print Assumptions C18_pull_after_restart_blocks_only_when_empty.
+
+(* "... and still subject to their timeout": job jx registered and unfinished in s (reachable with the full alphabet and
+   earlier restarts); restart; the first handletimeouts sweep whose clock is at or past the job's original absolute
+   deadline leaves it finished with error "timeout" (the rebuilt timeout heap is sorted: restart_ts; the sweep finishes
+   every entry whose deadline has passed: timeouts_loop_spec). *)
+Theorem C18_still_subject_to_timeout : forall s i x jx dt, RGood s ->
+  id_lookup (s_ids s) i = Some x -> getjob (s_jobs s) x = Some jx -> j_done jx = false ->
+  let s' := restart s in
+  j_timeout jx <= s_now s' + dt ->
+  exists j', getjob (s_jobs (fst (step s' (Tick dt)))) x = Some j' /\ j_done j' = true /\ j_err j' = e_timeout.
+Proof. exact restart_still_subject_to_timeout. Qed.
+Print Assumptions C18_still_subject_to_timeout.
+
+(* ... and in EVERY state reachable with the full alphabet and restarts at arbitrary positions (the timeout heap is sorted
+   and holds an entry with the deadline of every unfinished job: invariant TQ): a handletimeouts sweep at or past the
+   deadline of an unfinished job finishes it with error "timeout". *)
+Theorem C18_sweep_times_out_with_restarts : forall h x j dt,
+  let s := rrun h init in
+  getjob (s_jobs s) x = Some j -> j_done j = false -> j_timeout j <= s_now s + dt ->
+  exists j', getjob (s_jobs (fst (step s (Tick dt)))) x = Some j' /\ j_done j' = true /\ j_err j' = e_timeout.
+Proof. exact sweep_times_out. Qed.
+Print Assumptions C18_sweep_times_out_with_restarts.
+
+Example C18_timeout_example :
+  let s := restart (run [Add 0 0 None (Some 10); Add 0 0 None (Some 5)] init) in
+  let s2 := fst (step s (Tick 6)) in
+  map (fun j => (j_serial j, j_done j, j_err j)) (s_jobs s2) = [(2, true, EStr 1); (1, false, ENone)] \/
+  map (fun j => (j_serial j, j_done j, j_err j)) (s_jobs s2) = [(1, false, ENone); (2, true, EStr 1)].
+Proof. exact timeout_example. Qed.
+Print Assumptions C18_timeout_example.
 
 Theorem C18_reachable_with_restarts_is_RGood : forall h, RGood (rrun h init).
 Proof. exact rreachable_rgood. Qed.
